@@ -23,6 +23,7 @@ Definition dispatch (f : Z) (w : wire) : wire :=
          else if (Z.leb 30 f && Z.ltb f 40)%Z then dispatch_check f w
          else if (Z.eqb f 50)%Z then dispatch_type f w
          else if (Z.eqb f 80)%Z then dispatch_sched f w
+         else if (Z.eqb f 81)%Z then dispatch_ddmin f w
          else if (Z.leb 59 f && Z.ltb f 80)%Z then dispatch_rw f w
          else if (Z.leb 51 f && Z.ltb f 59)%Z then dispatch_smtlib f w
          else if (Z.eqb f 45)%Z then dispatch_cli f w
